@@ -197,3 +197,60 @@ func MatchNodes(a, b *Pkg, keyMode string) (pi, pinv []uint64, unmatchedA, unmat
 	}
 	return
 }
+
+
+// AllOrders returns every ordering of the top-level declarations of a single-file package (at most max orders;
+// the identity order is skipped).
+func (p *Pkg) AllOrders(max int) [][]SrcFile {
+	headers, chunks, tails := p.Chunks("text")
+	if len(p.Sources) != 1 {
+		return nil
+	}
+	n := len(chunks[0])
+	texts := make([]string, n)
+	for i, c := range chunks[0] {
+		t := p.Sources[0].Src[c.Start:c.End]
+		if !strings.HasSuffix(t, "\n") {
+			t += "\n"
+		}
+		texts[i] = t
+	}
+	var out [][]SrcFile
+	idx := make([]int, n)
+	for i := range idx {
+		idx[i] = i
+	}
+	var rec func(k int)
+	rec = func(k int) {
+		if len(out) >= max {
+			return
+		}
+		if k == n {
+			ident := true
+			for i, x := range idx {
+				if i != x {
+					ident = false
+				}
+			}
+			if ident {
+				return
+			}
+			var b strings.Builder
+			b.WriteString(headers[0])
+			for _, i := range idx {
+				b.WriteString("\n")
+				b.WriteString(texts[i])
+			}
+			b.WriteString(tails[0])
+			out = append(out, []SrcFile{{Name: p.Sources[0].Name, Src: b.String()}})
+			return
+		}
+		for i := k; i < n; i++ {
+			idx[k], idx[i] = idx[i], idx[k]
+			rec(k + 1)
+			idx[k], idx[i] = idx[i], idx[k]
+		}
+	}
+	rec(0)
+	return out
+}
